@@ -35,4 +35,177 @@ def actionsPinned : List String :=
 def pythonMergetoolActions : List String :=
   ["base", "local", "remote", "either", "local_then_remote", "remote_then_local", "clear", "remove", "take_max", "custom"]
 
+/-! ### the browser-side patcher: `packages/nbdime/src/patch/generic.ts` (`patch`, `patchSequence`, `patchObject`) and
+    `patchString` of `patch/stringified.ts` with `flattenStringDiff` of `diff/util.ts`.
+    JavaScript errors: `TypeError` -> `.typeErr`, `RangeError` -> `.index`, `Error` -> `.runtime`. Objects are returned
+    key-sorted (the harness compares canonical JSON). -/
+
+/-- `validateSequenceOp(base, entry)` with `n = base.length` -/
+def validateSeq (n : Nat) : Op → Except Err Unit
+  | .addrange k _ => if k > n then .error (.index "Invalid add range diff op: Key out of range") else .ok ()
+  | .addchars k _ => if k > n then .error (.index "Invalid add range diff op: Key out of range") else .ok ()
+  | .removerange k m =>
+      if k ≥ n then .error (.index "Invalid remove range diff op: Key out of range")
+      else if k + m > n then .error (.index "Invalid remove range diff op: Range too long!")
+      else .ok ()
+  | .patchI k _ => if k ≥ n then .error (.index "Invalid patch diff op: Key out of range") else .ok ()
+  | .invalid _ => .error (.runtime "Invalid op")
+  | _ => .error (.typeErr "Invalid patch sequence op: Key is not a number")
+
+/-- `validateObjectOp(base, entry, keys)` -/
+def validateObj (keys : List String) : Op → Except Err Unit
+  | .add k _ => if keys.contains k then .error (.runtime "Invalid add key diff op: Key already present") else .ok ()
+  | .remove k => if keys.contains k then .ok () else .error (.runtime "Invalid remove key diff op: Missing key")
+  | .replace k _ => if keys.contains k then .ok () else .error (.runtime "Invalid replace key diff op: Missing key")
+  | .patchK k _ => if keys.contains k then .ok () else .error (.runtime "Invalid patch key diff op: Missing key")
+  | .invalid _ => .error (.runtime "Invalid op")
+  | _ => .error (.typeErr "Invalid patch object op: Key is not a string")
+
+/-- `e.op !== 'addrange'` -/
+def notAddrange : Op → Bool
+  | .addrange _ _ => false
+  | .addchars _ _ => false
+  | _ => true
+
+/-- stable sort of a line diff: by key, an insertion before a change of the same line (`flattenStringDiff`) -/
+def insertLineOp (e : Op) : List Op → List Op
+  | [] => [e]
+  | x :: rest =>
+      if e.idx < x.idx || (e.idx == x.idx && (!notAddrange e || notAddrange x)) then e :: x :: rest
+      else x :: insertLineOp e rest
+
+def sortLineOps (ops : List Op) : List Op := ops.foldr insertLineOp []
+
+/-- the body of the loop of `flattenStringDiff` for one entry (after `validateStringDiff`) -/
+def flattenEntry (lines : List (List Char)) (offs : List Nat) (e : Op) : Except Err (List Op) := do
+  validateSeq lines.length e
+  let off ← match offs[e.idx]? with
+    | some o => pure o
+    | none => throw (.typeErr "lineToChar[e.key] is undefined")
+  match e with
+  | .patchI k dd => do
+      let line := (lines[k]?).getD []
+      let _ ← dd.mapM (validateSeq line.length)
+      dd.mapM (Op.offset off)
+  | .addrange _ vs => do
+      let cs ← joinStrs vs
+      pure [.addchars off cs]
+  | .addchars _ _ => throw (.typeErr "e.valuelist.join is not a function")
+  | .removerange k n =>
+      match offs[k + n]? with
+      | some stop => pure [.removerange off (stop - off)]
+      | none => throw (.typeErr "lineToChar[idx] is undefined")
+  | _ => throw (.typeErr "unreachable")
+
+def flattenTs (s : List Char) (d : List Op) : Except Err (List Op) := do
+  let lines := splitLines s
+  let offs := lineOffsets lines 0
+  let parts ← (sortLineOps d).mapM (flattenEntry lines offs)
+  pure (sortByIdx parts.flatten)
+
+/-- the cursor loop of `patchString`; `skip` survives an entry that is neither an insertion nor a removal -/
+def charLoop (base : List Char) : List Op → Nat → Except Err (List Char)
+  | [], take => .ok (base.drop take)
+  | e :: es, take =>
+      match e with
+      | .addchars k cs => do
+          let r ← charLoop base es (max take k)
+          .ok ((base.drop take).take (k - take) ++ cs ++ r)
+      | .removerange k n => do
+          let r ← charLoop base es (max take (k + n))
+          .ok ((base.drop take).take (k - take) ++ r)
+      | _ => .error (.runtime "character-level entry that is neither addrange nor removerange (not modelled)")
+
+def patchString (s : List Char) (d : List Op) : Except Err (List Char) := do
+  let cd ← flattenTs s d
+  charLoop s cd 0
+
+def setKV' (k : String) (v : J) (kvs : List (String × J)) : List (String × J) :=
+  (k, v) :: kvs.filter (fun kv => kv.1 != k)
+
+mutual
+def patch (x : J) (d : List Op) : Except Err J :=
+  match x with
+  | .str s => do
+      let r ← patchString s d
+      .ok (.str r)
+  | .arr xs => do
+      let r ← patchSeq xs d 0
+      .ok (.arr r)
+  | .obj kvs => do
+      let r ← patchObj kvs d [] (kvs.map (·.1))
+      .ok (.obj r)
+  | .null => .error (.typeErr "Cannot patch a null base!")
+  | _ => .error (.typeErr "Cannot patch an atomic type")
+termination_by (sizeOf d, 1)
+
+def patchSeq (base : List J) (d : List Op) (take : Nat) : Except Err (List J) :=
+  match d with
+  | [] => .ok (base.drop take)
+  | e :: es =>
+      match validateSeq base.length e with
+      | .error er => .error er
+      | .ok () =>
+        match e with
+        | .addrange k vs => do
+            let r ← patchSeq base es (max take k)
+            .ok ((base.drop take).take (k - take) ++ vs ++ r)
+        | .addchars k cs => do
+            -- `patched.concat("abc")` appends the string as one item
+            let r ← patchSeq base es (max take k)
+            .ok ((base.drop take).take (k - take) ++ [J.str cs] ++ r)
+        | .removerange k n => do
+            let r ← patchSeq base es (max take (k + n))
+            .ok ((base.drop take).take (k - take) ++ r)
+        | .patchI k dd =>
+            match base[k]? with
+            | none => .error (.index "Invalid patch diff op: Key out of range")
+            | some v => do
+                let pv ← patch v dd
+                let r ← patchSeq base es (max take (k + 1))
+                .ok ((base.drop take).take (k - take) ++ [pv] ++ r)
+        | _ => .error (.typeErr "unreachable")
+termination_by (sizeOf d, 0)
+
+/-- `patched` in insertion order (reversed), `keysToCopy` -/
+def patchObj (base : List (String × J)) (d : List Op) (patched : List (String × J)) (keysToCopy : List String) :
+    Except Err (List (String × J)) :=
+  match d with
+  | [] =>
+      let copied := keysToCopy.filterMap (fun k => (lookupKV k base).map (fun v => (k, v)))
+      -- later assignments win: the copied keys are assigned last
+      .ok (sortKV (copied.reverse ++ patched.filter (fun kv => !keysToCopy.contains kv.1)))
+  | e :: es =>
+      match validateObj keysToCopy e with
+      | .error er => .error er
+      | .ok () =>
+        match e with
+        | .add k v => patchObj base es (setKV' k v patched) keysToCopy
+        | .remove k => patchObj base es patched (keysToCopy.erase k)
+        | .replace k v => patchObj base es (setKV' k v patched) (keysToCopy.erase k)
+        | .patchK k dd =>
+            match lookupKV k base with
+            | none => .error (.typeErr "Cannot patch undefined")
+            | some v => do
+                let pv ← patch v dd
+                patchObj base es (setKV' k pv patched) (keysToCopy.erase k)
+        | _ => .error (.typeErr "unreachable")
+termination_by (sizeOf d, 0)
+end
+
+mutual
+/-- no string of the document contains a character the two languages split differently -/
+def noExotic : J → Bool
+  | .str s => s.all (fun c => !exotic c)
+  | .arr xs => noExoticL xs
+  | .obj kvs => noExoticK kvs
+  | _ => true
+def noExoticL : List J → Bool
+  | [] => true
+  | x :: xs => noExotic x && noExoticL xs
+def noExoticK : List (String × J) → Bool
+  | [] => true
+  | (_, x) :: xs => noExotic x && noExoticK xs
+end
+
 end Nbdime.Ts
